@@ -210,10 +210,12 @@ theorem initbindings_values_needs_outermost_binding :
 def Statement_expr_eval_clears : Prop :=
   ∀ (n : Nat) (e : ExS n) (c : Row n), (e.eval c).2 = ExS.ofEx e.erase ∧ (e.eval c).1 = e.erase.eval c
 
-/-- One evaluation of a prepared query: the tree afterwards is the tree before, and the answers are
-    those of the algebra (which has no state). -/
+/-- One evaluation of a prepared query: the tree afterwards is the tree before — every `ctx` field `None`, and the
+    triple lists of its BGPs in the order they had (the per-evaluation sort of `evalPart` works on a copy) — and the
+    answers are those of the algebra (which has no state), as a bag. -/
 def Statement_prepared_stateless : Prop :=
-  ∀ (n : Nat) (q : QS n) (st : Store), q.clean = true → (q.run st).2 = q ∧ (q.run st).1 = q.erase.eval st
+  ∀ (n : Nat) (q : QS n) (st : Store) (d : List Triple), q.clean = true → ExactlyOnce st d →
+    (q.run st).2 = q ∧ (q.run st).1.Perm (q.erase.eval st)
 
 /-- Evaluating one prepared object any number of times, on the same or on other data: each run
     answers as a freshly translated tree does on that data. -/
@@ -229,16 +231,13 @@ def Statement_prepared_any_schedule : Prop :=
 
 theorem expr_eval_clears : Statement_expr_eval_clears := fun _ e c => ⟨e.eval_snd c, e.eval_fst c⟩
 
-theorem prepared_stateless : Statement_prepared_stateless := fun _ q st h => by
-  rw [QS.run_spec st q h]; exact ⟨rfl, rfl⟩
+theorem prepared_stateless : Statement_prepared_stateless := fun _ q st _ h hd =>
+  ⟨QS.run_snd st q h, QS.run_fst_perm (exactlyOnce_graphLike hd) q h⟩
 
 theorem prepared_repeat : Statement_prepared_repeat := fun _ q sts => by
   have hc := QS.clean_ofQ q
   rw [runMany_spec _ hc]
-  refine ⟨?_, rfl⟩
-  apply List.map_congr_left
-  intro st _
-  rw [QS.run_spec st _ hc]
+  exact ⟨rfl, rfl⟩
 
 theorem prepared_any_schedule : Statement_prepared_any_schedule := fun _ es calls h => runCalls_state es h calls
 
@@ -319,6 +318,12 @@ example :
   have : v = 0 := by
     revert hv; revert v; decide
   subst this
+  decide
+
+/-- the dynamic sort really reorders (so a sort done in place on the prepared tree would change its state) -/
+example :
+    dynOrder (Row.empty : Row 2) [(.var 0, .const 2, .var 1), (.const 1, .const 2, .var 1)] =
+      [(.const 1, .const 2, .var 1), (.var 0, .const 2, .var 1)] := by
   decide
 
 /-- a prepared filter query evaluated on two data sets in turn: clean before, clean after -/
